@@ -446,6 +446,8 @@ class Interp(object):
         def leaf(a):
             if a[0] == 'fn' and a[1] in ELEMENTWISE_FNS:
                 return None
+            if a[0] == 'fn' and a[1] == 'ident':
+                return N.NF.const(1 if i == j else 0)
             if self.atom_is_array(a):
                 return N.fn('entc', N.NF.atom(a), N.NF.const(i), N.NF.const(j))
             if a[0] in ('sym', 'fn'):
@@ -1911,6 +1913,11 @@ class Interp(object):
                 return ('at', int(num_value(v)))
             if isinstance(v, Index):
                 return ('atlabel', v.label)
+            if isinstance(v, (Arr, Num)) and getattr(v, 'kind', '') == 'array' and not P.is_pw(v.t):
+                # an index vector arange(n) with a concrete n
+                for n_ in range(1, 9):
+                    if v.t.equals(N.fn('iota', N.NF.const(n_))):
+                        return ('iota', n_)
             raise Unsupported('array index %r' % (v,), node)
         if idx[0] == 'slice':
             _, lo, hi, st = idx
@@ -1938,6 +1945,8 @@ class Interp(object):
                 return ('entry', parts[1][1], parts[2][1])
             if len(parts) == 3 and parts[0] == ('all',) and parts[1][0] == 'at' and parts[2][0] == 'at':
                 return ('entryc', parts[1][1], parts[2][1])
+            if len(parts) == 3 and parts[0] == ('all',) and parts[1][0] == 'iota' and parts[2] == parts[1]:
+                return ('diagc', parts[1][1])       # x[:, arange(n), arange(n)]: the n diagonal pair functions
             if len(parts) == 2 and parts[0] == ('all',) and parts[1][0] == 'at':
                 return ('col', parts[1][1])
             if len(parts) == 3 and parts[1] == ('all',) and parts[2] == ('all',):
@@ -2036,6 +2045,13 @@ class Interp(object):
             if d[0] == 'entryc':
                 newt, _ = self.term_of(v, node)
                 self.write_view(View(o, d), newt, node)
+                return
+            if d[0] == 'diagc':
+                newt, k_ = self.term_of(v, node)
+                if k_ == 'array':
+                    raise Unsupported('array value stored on the diagonal by fancy indexing', node)
+                for i_ in range(d[1]):
+                    self.write_view(View(o, ('entryc', i_, i_)), newt, node)
                 return
             if d[0] == 'all':
                 newt, _ = self.term_of(v, node)
